@@ -204,9 +204,11 @@ class Worker(courier_utils.CourierClient):
         self._worker_pool = worker_pool
       return self._worker_pool is worker_pool
 
-  def release(self):
-    """Releases the worker."""
+  def release(self, worker_pool: WorkerPool | None = None):
+    """Releases the worker, when given, only if not held by another pool."""
     with self._states_lock:
+      if worker_pool is not None and not self.is_available(worker_pool):
+        return
       if self._lock.locked():
         self._lock.release()
       self._worker_pool = None
@@ -281,8 +283,9 @@ class WorkerPool:
   def release_all(self, workers: Iterable[Worker] = ()):
     workers = workers or self._workers
     for worker in workers:
-      if worker.is_available(self):
-        worker.release()
+      # Checks the ownership and releases atomically, otherwise another pool
+      # can acquire the worker in between and get its lock released.
+      worker.release(self)
 
   def wait_until_alive(
       self,
